@@ -71,6 +71,17 @@ def main():
                     "translator: the validators regenerated from validators.py no longer decide as the model does (tie theorem(s) %s fail)"
                     % ", ".join(tv["failed_names"]), {"kind": "translation", "failed": tv["failed"]}, tv["definitions"],
                     "NostrRelay/Model/Admission.lean")
+        if prop == "C15":
+            from lib import translate_validators
+            ta = translate_validators.run_auth(common.REPO, common.LEAN)
+            report.coverage["translation_tie"] = {
+                "source": "nostr_relay/auth.py Authenticator.check_auth_event", "status": ta["status"], "theorems": ta["theorems"],
+                "failed": ta["failed"], "unavailable": ta["unavailable"], "definitions": ta["definitions"]}
+            if ta["failed_names"]:
+                report.correspondence_break(
+                    "translator: check_auth_event regenerated from auth.py no longer decides as the model's authenticate (%s fail)"
+                    % ", ".join(ta["failed_names"]), {"kind": "translation", "failed": ta["failed"]}, ta["definitions"],
+                    "NostrRelay/Model/Admission.lean authenticate / scanAuthTags")
         if prop == "C18":
             from lib import translate_validators
             ti = translate_validators.run_intervals(common.REPO, common.LEAN)
